@@ -72,6 +72,19 @@ def autoShutdown (s : OFO) (sc : Scan) (reason : Reason) : OFO × Res :=
   if sc.running.length = 0 ∧ s.autoshutdown then (s, .ok { act := .terminate, reason := some reason })
   else (s, .ok {})
 
+/-- "check for restart intensity": restart the child or give up -/
+def intensityStep (s : OFO) (sc : Scan) (spec : ChildSpec) (now : Int) : OFO × Res :=
+  let chk := Window.check s.restarts now s.restart.periodMs s.restart.intensity
+  let s := { s with restarts := chk.1 }
+  if chk.2 = false then (s, .ok { act := .start, spec := spec })
+  else
+    ({ s with wait := mkSet sc.running, shutdown := true, shutdownReason := some .restartsExceeded },
+     .ok { act := .terminateChildren, terminate := runningPids s.spec, reason := some .restartsExceeded })
+
+/-- the branches that do not restart: significant child / auto shutdown / nothing -/
+def quietStep (s : OFO) (sc : Scan) (spec : ChildSpec) (reason : Reason) : OFO × Res :=
+  if spec.significant then stopAll s sc reason else autoShutdown s sc reason
+
 /-- supOFO.childTerminated -/
 def childTerminated (s0 : OFO) (name pid : Nat) (reason : Reason) (now : Int) : OFO × Res :=
   let s := { s0 with wait := sdel pid s0.wait }
@@ -86,22 +99,10 @@ def childTerminated (s0 : OFO) (name pid : Nat) (reason : Reason) (now : Int) : 
     | some (_, spec) =>
       if spec.disabled then autoShutdown s sc reason
       else
-        let quietPath : Option (OFO × Res) :=
-          match s.restart.strategy with
-          | .temporary => some (if spec.significant then stopAll s sc reason else autoShutdown s sc reason)
-          | .transient =>
-            if reason.quiet then some (if spec.significant then stopAll s sc reason else autoShutdown s sc reason)
-            else none
-          | .permanent => none
-        match quietPath with
-        | some r => r
-        | none =>
-          let chk := Window.check s.restarts now s.restart.periodMs s.restart.intensity
-          let s := { s with restarts := chk.1 }
-          if chk.2 = false then (s, .ok { act := .start, spec := spec })
-          else
-            ({ s with wait := mkSet sc.running, shutdown := true, shutdownReason := some reason },
-             .ok { act := .terminateChildren, terminate := runningPids s.spec, reason := some .restartsExceeded })
+        match s.restart.strategy with
+        | .temporary => quietStep s sc spec reason
+        | .transient => if reason.quiet then quietStep s sc spec reason else intensityStep s sc spec now
+        | .permanent => intensityStep s sc spec now
 
 /-- supOFO.childEnable -/
 def childEnable (s : OFO) (name : Nat) : OFO × Res :=
@@ -119,7 +120,7 @@ def childDisable (s : OFO) (name : Nat) : OFO × Res :=
   | none => (s, .err .unknown)
   | some c =>
     if c.disabled then (s, .ok {})
-    else if c.pid = 0 then (s, .ok {})
+    else if c.pid = 0 then ({ s with spec := updName name (fun c => { c with disabled := true }) s.spec }, .ok {})
     else
       ({ s with spec := updName name (fun c => { c with disabled := true }) s.spec },
        .ok { act := .terminateChildren, terminate := [c.pid], reason := some .shutdown })
